@@ -223,6 +223,107 @@ def one_case(ctx: Ctx, stream: str, i: int) -> None:
              sample={'shape': shape, 'index': str(idx)[:200], 'out_shape': list(want0.shape), 'positions': pos[:24]})
 
 
+def hetero_case(ctx: Ctx, stream: str, i: int) -> None:
+    """one index expression applied to a pytree whose leaves have DIFFERENT shapes (other lengths along the indexed axis,
+    other trailing axes, other ranks): every leaf is indexed on its own, as NumPy would index it — negative entries count
+    from the end of THAT leaf; transposes scatter into that leaf; the reductions keep the map"""
+    from furax._base.core import CompositionOperator
+    from furax._base.indices import IndexOperator
+    rng = ctx.rng(stream, i)
+    nleaf = rng.choice([2, 2, 3])
+    n0 = rng.choice([3, 4, 5])
+    shapes = []
+    for k in range(nleaf):
+        nk = n0 + rng.choice([0, 1, 3, 2]) if k else n0            # the FIRST leaf is the shortest one
+        shapes.append((nk,) + tuple(rng.choice([(), (), (2,), (3,), (2, 2)])))
+    if rng.random() < 0.4:
+        shapes = shapes[::-1]                                        # … or the last one
+    nmin = min(sh[0] for sh in shapes)
+    kind = rng.choice(['iarr', 'iarr', 'iarr2d', 'int', 'slice', 'iarr-ellipsis'])
+    if kind in ('iarr', 'iarr-ellipsis'):
+        m = rng.randint(1, 5)
+        arr = np.array([rng.randint(-nmin, nmin - 1) for _ in range(m)])
+        idx = (arr,) if kind == 'iarr' else (arr, Ellipsis)
+    elif kind == 'iarr2d':
+        arr = np.array([[rng.randint(-nmin, nmin - 1) for _ in range(2)] for _ in range(rng.randint(1, 3))])
+        idx = (arr,)
+    elif kind == 'int':
+        idx = (rng.randint(-nmin, nmin - 1),)
+    else:
+        idx = (slice(rng.choice([None, 1, -2, -nmin]), rng.choice([None, -1, nmin, 2]), rng.choice([None, 1, 2, -1])),)
+    form = rng.choice(['list', 'dict', 'tuple'])
+    xs = [np.arange(int(np.prod(sh)), dtype=np.float64).reshape(sh) + 100 * k for k, sh in enumerate(shapes)]
+    names = ['b', 'a', 'c']
+
+    def pack(vals):
+        if form == 'list':
+            return list(vals)
+        if form == 'tuple':
+            return tuple(vals)
+        return {names[k]: v for k, v in enumerate(vals)}
+    structure = pack([jax.ShapeDtypeStruct(sh, jnp.float32) for sh in shapes])
+    stn, wants = safe(lambda: [x[idx] for x in xs])
+    cfg = {'shapes': shapes, 'indices': str(idx)[:200], 'container': form, 'kind': kind}
+    if stn != 'ok':
+        ctx.case(f'hetero-reject:{cfg}', False)
+        return
+    jidx = tuple(to_jax(e) for e in idx)
+    give_out = rng.random() < 0.5
+    outs = pack([jax.ShapeDtypeStruct(w.shape, jnp.float32) for w in wants]) if give_out else None
+    st, op = safe(lambda: IndexOperator(jidx if rng.random() < 0.5 or len(jidx) != 1 else jidx[0], in_structure=structure,
+                                        out_structure=outs))
+    if st != 'ok':
+        ctx.fail(stream, i, f'index-ctor-raises:{st}:heterogeneous-pytree', str(op)[:150], cfg)
+        return
+    x = pack([jnp.asarray(v, dtype=jnp.float32) for v in xs])
+    st, y = safe(op.mv, x)
+    want_tree = pack(wants)
+    if st != 'ok' or jax.tree.structure(y) != jax.tree.structure(want_tree) or any(
+            np.asarray(a).shape != b.shape or not np.array_equal(np.asarray(a), b)
+            for a, b in zip(jax.tree.leaves(y), jax.tree.leaves(want_tree))):
+        ctx.fail(stream, i, 'index-wrong:heterogeneous-pytree', f'op(x) differs from x[indices] leaf by leaf ({st})', cfg)
+        ctx.case(f'hetero:{cfg}', True)
+        return
+    if [tuple(l.shape) for l in jax.tree.leaves(op.out_structure())] != [w.shape for w in jax.tree.leaves(want_tree)]:
+        ctx.fail(stream, i, 'index-out-structure:heterogeneous-pytree', 'out_structure() disagrees with x[indices]', cfg)
+    # the model, leaf by leaf
+    enc_idx = [idx_entry(e) for e in idx]
+    for sh, w, xv in zip(shapes, wants, xs):
+        rep = ctx.model.ask(['index-positions', [str(d) for d in sh], enc_idx])
+        if rep[0] != 'ok' or [int(d) for d in rep[1]] != list(w.shape) or \
+                [int(v) for v in rep[2]] != [int(v - xv.ravel()[0]) for v in w.ravel()]:
+            ctx.disagree(stream, i, f'positions on a leaf of shape {sh}: model {str(rep)[:160]}', cfg)
+            break
+    # dense matrix = direct sum of the per-leaf selection matrices; transpose; reductions
+    total_in = sum(int(np.prod(sh)) for sh in shapes)
+    if total_in <= 60:
+        m = gen.dense(op)
+        flat_shapes = [l.shape for l in jax.tree.leaves(structure)]
+        flat_xs = [np.arange(int(np.prod(sh))).reshape(sh) for sh in flat_shapes]
+        ref = np.zeros_like(m)
+        r0 = c0 = 0
+        for sh, base in zip(flat_shapes, flat_xs):
+            sel = base[idx].ravel()
+            for r, c in enumerate(sel):
+                ref[r0 + r, c0 + int(c)] = 1.0
+            r0 += len(sel)
+            c0 += int(np.prod(sh))
+        if m.shape != ref.shape or not np.array_equal(m, ref):
+            ctx.fail(stream, i, 'index-matrix:heterogeneous-pytree', 'the dense matrix is not the direct sum of the per-leaf selections', cfg)
+        else:
+            stt, mt = safe(lambda: gen.dense(op.T))
+            if stt != 'ok' or not np.array_equal(mt, ref.T):
+                ctx.fail(stream, i, 'index-transpose-wrong:heterogeneous-pytree', f'op.T is not the scatter-add leaf by leaf ({stt})', cfg)
+            for label, e, refm in (('P@P.T', CompositionOperator([op, op.T]), ref @ ref.T), ('P.T@P', CompositionOperator([op.T, op]), ref.T @ ref)):
+                st2, r = safe(e.reduce)
+                if st2 != 'ok':
+                    ctx.fail(stream, i, f'reduce-raises:{st2}:heterogeneous-pytree', label, cfg)
+                elif not gen.close(gen.dense(r), refm):
+                    ctx.fail(stream, i, f'reduce-changes-map:{label}:heterogeneous-pytree', f'reduce({label}) is not the product of the selection matrices', cfg)
+    ctx.count('hetero:' + kind)
+    ctx.case(f'hetero:{shapes}:{idx}:{form}', True, sample=cfg)
+
+
 def rule_case(ctx: Ctx, stream: str, i: int) -> None:
     """TransposeIndexRule in isolation: ONE axis indexed by an integer array of rank 0-3 (every other axis taken
     whole), few or many distinct values, negative aliases, repeats; P.T @ P must reduce to the diagonal of the
@@ -383,6 +484,9 @@ def run(ctx: Ctx) -> None:
     for i in range(260 if q else 6000):
         if ctx.want('index', i):
             one_case(ctx, 'index', i)
+    for i in range(60 if ctx.tier == 'quick' else 900):
+        if ctx.want('hetero', i):
+            hetero_case(ctx, 'hetero', i)
     for i in range(160 if q else 4000):
         if ctx.want('rule', i):
             rule_case(ctx, 'rule', i)
